@@ -73,10 +73,10 @@ OptList(T, i, acc) ==
        IN IF w.br1 THEN <<TRUE, i + 1, acc2>> ELSE OptList(T, i + 1, acc2)
 
 RECURSIVE TieFold(_, _, _, _)
-TieFold(p, L, k, tie) ==       \* tie: function cid -> order (as a set of pairs, later entries override)
-  IF k > Len(L) THEN tie
+TieFold(p, L, k, tie) ==       \* returns <<ok, tie>>; tie: function cid -> order, later entries override
+  IF k > Len(L) THEN <<TRUE, tie>>
   ELSE LET cid == GetCid(p, L[k].rbdig, L[k].rbval, L[k].rb) IN
-       IF cid = 0 THEN <<"bad">> ELSE TieFold(p, L, k + 1, [c \in DOMAIN tie \cup {cid} |-> IF c = cid THEN k ELSE tie[c]])
+       IF cid = 0 THEN <<FALSE, tie>> ELSE TieFold(p, L, k + 1, [c \in DOMAIN tie \cup {cid} |-> IF c = cid THEN k ELSE tie[c]])
 RECURSIVE SetFold(_, _, _, _)
 SetFold(p, L, k, S) ==         \* [withdrawn ...] / [undeclared ...]: duplicates are errors
   IF k > Len(L) THEN S
@@ -86,10 +86,10 @@ SetFold(p, L, k, S) ==         \* [withdrawn ...] / [undeclared ...]: duplicates
 ApplyOption(p, w, L) ==        \* returns the new profile or an Err record
   LET name == IF w.br1 THEN w.lbrb ELSE w.lb IN
   CASE name = "tie" ->
-         LET tie == TieFold(p, L, 1, << >>) IN
-         IF tie = <<"bad">> THEN Err("bad candidate in [tie]")
-         ELSE IF Cardinality(DOMAIN tie) # p.nCand THEN Err("[tie] must list each candidate")
-         ELSE [p EXCEPT !.tie = tie, !.hasTie = TRUE]
+         LET tf == TieFold(p, L, 1, << >>) IN
+         IF ~tf[1] THEN Err("bad candidate in [tie]")
+         ELSE IF Cardinality(DOMAIN tf[2]) # p.nCand THEN Err("[tie] must list each candidate")
+         ELSE [p EXCEPT !.tie = tf[2], !.hasTie = TRUE]
     [] name = "nick" ->
          IF Len(L) # p.nCand THEN Err("[nick] length")
          ELSE IF Cardinality({L[k].rb : k \in DOMAIN L}) # Len(L) THEN Err("duplicate nickname")
